@@ -5,6 +5,7 @@
      "flat"    credit tensors M[a][i][j] in units of 1/den, ordered / unordered, partial_credit on / off, 1-3 answer lists
      "group"   every valid grouping (inputs -> groups) with nested ListGraders, fixed credit patterns
      "nested"  two groups of two inputs (both interleavings), every 0/1 credit table, all flag combinations
+     "gmap"    every valid grouping of up to 8 inputs: the group map and the Groupify / Ungroupify laws only
    Two-level enumeration: Init picks seeds, Next picks one case per step. *)
 EXTENDS ListGrading
 CONSTANTS Part, Tier
@@ -15,31 +16,35 @@ Units(den) == 0..den
 Rows(n, den) == [1..n -> Units(den)]
 
 (* ------------------------------------------------------------------ part "flat" *)
-\* a block of cases: size n, A answer lists, credits k/den, which flags, which leading rows (a set of row sequences)
-Blk(n, A, den, ords, pcs, heads) == [n |-> n, A |-> A, den |-> den, ords |-> ords, pcs |-> pcs, heads |-> heads]
+\* a block of cases: size n, A answer lists, credits k/den, which flags, which leading rows (a set of row sequences),
+\* lite = TRUE: enumerated for the replay with the core laws only (the other laws are checked on the smaller blocks)
+Blk(n, A, den, ords, pcs, heads, lite) == [n |-> n, A |-> A, den |-> den, ords |-> ords, pcs |-> pcs, heads |-> heads, lite |-> lite]
 AllHeads(n, den) == {<<r>> : r \in Rows(n, den)}
 \* first row non-decreasing: one representative per renumbering of the answers
-SortedHeads(n, den) == {<<r>> : r \in {x \in Rows(n, den) : \A i \in 1..(n - 1) : x[i] <= x[i + 1]}}
+SortedRows(n, den) == {x \in Rows(n, den) : \A i \in 1..(n - 1) : x[i] <= x[i + 1]}
+SortedHeads(n, den) == {<<r>> : r \in SortedRows(n, den)}
 PairHeads4 == {<<r1, r2>> : r1 \in {<<0, 1, 1, 0>>, <<1, 1, 0, 1>>}, r2 \in {<<1, 0, 1, 0>>, <<0, 0, 1, 1>>, <<1, 1, 1, 1>>, <<0, 1, 0, 0>>}}
+PairHeads3 == {<<r1, r2>> : r1 \in SortedRows(3, 1), r2 \in {<<0, 1, 0>>, <<1, 0, 1>>, <<1, 1, 0>>, <<0, 0, 1>>}}
 FlatBlocks ==
   IF Tier = "quick" THEN
-    { Blk(2, 1, 2, BOOLEAN, BOOLEAN, AllHeads(2, 2)),
-      Blk(2, 2, 2, {FALSE}, {TRUE}, SortedHeads(2, 2)),
-      Blk(2, 2, 1, BOOLEAN, BOOLEAN, AllHeads(2, 1)),
-      Blk(3, 1, 2, {FALSE}, {TRUE}, SortedHeads(3, 2)),
-      Blk(3, 1, 1, BOOLEAN, BOOLEAN, AllHeads(3, 1)),
-      Blk(4, 1, 1, {FALSE}, {TRUE}, PairHeads4) }
+    { Blk(2, 1, 2, BOOLEAN, BOOLEAN, AllHeads(2, 2), FALSE),
+      Blk(2, 2, 2, {FALSE}, {TRUE}, SortedHeads(2, 2), FALSE),
+      Blk(2, 2, 1, BOOLEAN, BOOLEAN, AllHeads(2, 1), FALSE),
+      Blk(3, 1, 2, {FALSE}, {TRUE}, SortedHeads(3, 2), FALSE),
+      Blk(3, 1, 1, BOOLEAN, BOOLEAN, AllHeads(3, 1), FALSE),
+      Blk(4, 1, 1, {FALSE}, {TRUE}, PairHeads4, FALSE) }
   ELSE
-    { Blk(2, 1, 2, BOOLEAN, BOOLEAN, AllHeads(2, 2)),
-      Blk(2, 2, 2, BOOLEAN, BOOLEAN, AllHeads(2, 2)),
-      Blk(2, 3, 1, BOOLEAN, BOOLEAN, AllHeads(2, 1)),
-      Blk(3, 1, 2, BOOLEAN, BOOLEAN, AllHeads(3, 2)),
-      Blk(3, 2, 1, {FALSE}, {TRUE}, SortedHeads(3, 1)),
-      Blk(4, 1, 1, {FALSE}, {TRUE}, AllHeads(4, 1)),
-      Blk(4, 1, 1, {FALSE}, {FALSE}, SortedHeads(4, 1)),
-      Blk(4, 1, 1, {TRUE}, {FALSE}, SortedHeads(4, 1)) }
-FlatSeeds == UNION {[kind : {"seed"}, n : {b.n}, A : {b.A}, den : {b.den}, ordered : b.ords, pc : b.pcs, head : b.heads] : b \in FlatBlocks}
-FlatCases(s) == [kind : {"flat"}, n : {s.n}, A : {s.A}, den : {s.den}, ordered : {s.ordered}, pc : {s.pc}, head : {s.head},
+    { Blk(2, 1, 2, BOOLEAN, BOOLEAN, AllHeads(2, 2), FALSE),
+      Blk(2, 2, 2, BOOLEAN, BOOLEAN, AllHeads(2, 2), FALSE),
+      Blk(2, 3, 1, BOOLEAN, {TRUE}, AllHeads(2, 1), FALSE),
+      Blk(3, 1, 2, {FALSE}, BOOLEAN, AllHeads(3, 2), FALSE),
+      Blk(3, 1, 1, {TRUE}, BOOLEAN, AllHeads(3, 1), FALSE),
+      Blk(3, 2, 1, {FALSE}, {TRUE}, PairHeads3, TRUE),
+      Blk(4, 1, 1, {FALSE}, {TRUE}, AllHeads(4, 1), TRUE),
+      Blk(4, 1, 1, {FALSE}, {FALSE}, SortedHeads(4, 1), FALSE),
+      Blk(4, 1, 1, {TRUE}, {FALSE}, SortedHeads(4, 1), TRUE) }
+FlatSeeds == UNION {[kind : {"seed"}, n : {b.n}, A : {b.A}, den : {b.den}, ordered : b.ords, pc : b.pcs, head : b.heads, lite : {b.lite}] : b \in FlatBlocks}
+FlatCases(s) == [kind : {"flat"}, n : {s.n}, A : {s.A}, den : {s.den}, ordered : {s.ordered}, pc : {s.pc}, head : {s.head}, lite : {s.lite},
                  rest : [1..(s.A * s.n - Len(s.head)) -> Rows(s.n, s.den)]]
 UnitTensor(x) == LET rows == x.head \o x.rest IN TLCEval([a \in 1..x.A |-> TLCEval([i \in 1..x.n |-> rows[(a - 1) * x.n + i]])])
 RatTensor(U, den) == TLCEval([a \in 1..Len(U) |-> TLCEval([i \in 1..Len(U[a]) |-> TLCEval([j \in 1..Len(U[a][i]) |-> Q(U[a][i][j], den)])])])
@@ -83,7 +88,7 @@ Pattern(g, pat) ==
   IN [p \in 1..Len(g) |-> [q \in 1..Len(g) |-> IF q = Full(p) THEN 2 ELSE IF q = RankOf(g, p) THEN 1 ELSE 0]]
 
 MaxN == IF Tier = "quick" THEN 6 ELSE 8
-MaxG(N) == IF Tier = "quick" THEN (IF N <= 5 THEN N ELSE 3) ELSE (IF N <= 7 THEN N ELSE 4)
+MaxG(N) == IF Tier = "quick" THEN (IF N <= 5 THEN N ELSE 3) ELSE (IF N <= 6 THEN N ELSE IF N = 7 THEN 5 ELSE 3)
 GroupSeeds == {s \in [kind : {"seed"}, N : 2..MaxN, G : 2..MaxN, p1 : 1..MaxN, p2 : 1..MaxN] :
                  s.G <= MaxG(s.N) /\ s.G <= s.N /\ s.p1 <= s.G /\ s.p2 <= s.G}
 GroupingOf(x) == <<x.p1, x.p2>> \o x.rest
@@ -99,55 +104,70 @@ GroupCases(s) == {x \in [kind : {"group"}, N : {s.N}, G : {s.G}, p1 : {s.p1}, p2
 NestLayouts == {<<1, 1, 2, 2>>, <<1, 2, 1, 2>>}
 NestFlags == IF Tier = "quick"
              THEN {<<FALSE, FALSE, TRUE, TRUE>>, <<FALSE, TRUE, TRUE, FALSE>>, <<FALSE, FALSE, FALSE, FALSE>>, <<TRUE, FALSE, FALSE, TRUE>>}
-             ELSE {f \in [1..4 -> BOOLEAN] : TRUE}                        \* <<outOrd, inOrd, pcOut, pcIn>>
+             ELSE {f \in [1..4 -> BOOLEAN] : ~f[1]} \cup {<<TRUE, FALSE, FALSE, TRUE>>, <<TRUE, TRUE, TRUE, FALSE>>}   \* <<outOrd, inOrd, pcOut, pcIn>>
 NestFirsts == IF Tier = "quick" THEN {<<<<1, 0, 0, 1>>, <<0, 1, 1, 0>>>>, <<<<1, 1, 0, 0>>, <<0, 1, 0, 1>>>>, <<<<0, 0, 1, 0>>, <<1, 0, 1, 1>>>>}
-              ELSE [1..2 -> Rows(4, 1)]
+              ELSE {<<r1, r2>> : r1 \in {<<1, 0, 0, 1>>, <<1, 1, 0, 0>>, <<0, 0, 1, 0>>, <<1, 1, 1, 1>>},
+                                 r2 \in {<<0, 1, 1, 0>>, <<0, 1, 0, 1>>, <<1, 0, 1, 1>>}}
 NestSeeds == [kind : {"seed"}, g : (IF Tier = "quick" THEN {<<1, 2, 1, 2>>} ELSE NestLayouts), flags : NestFlags, first : NestFirsts]
 NestCases(s) == [kind : {"nested"}, g : {s.g}, outOrd : {s.flags[1]}, inOrd : {s.flags[2]}, pcOut : {s.flags[3]}, pcIn : {s.flags[4]},
                  first : {s.first}, rest : [1..2 -> Rows(4, 1)]]
 
+\* part "gmap": every valid grouping of N inputs into G >= 2 groups, group map only (no credits)
+GmapMaxN == IF Tier = "quick" THEN 6 ELSE 8
+PreLen(N) == IF N >= 6 THEN 3 ELSE 2
+GmapSeeds == UNION {[kind : {"seed"}, N : {N}, G : {G}, pre : [1..PreLen(N) -> 1..G]] : N \in 2..GmapMaxN, G \in 2..GmapMaxN}
+GmapCases(s) == IF s.G > s.N THEN {}
+                ELSE {x \in [kind : {"gmap"}, N : {s.N}, G : {s.G}, pre : {s.pre}, rest : [1..(s.N - PreLen(s.N)) -> 1..s.G]] :
+                        Range(x.pre \o x.rest) = 1..x.G}
+
 (* ------------------------------------------------------------------ the model *)
-Seeds == IF Part = "flat" THEN FlatSeeds ELSE IF Part = "group" THEN GroupSeeds ELSE NestSeeds
-CasesFor(s) == IF Part = "flat" THEN FlatCases(s) ELSE IF Part = "group" THEN GroupCases(s) ELSE NestCases(s)
+Seeds == IF Part = "flat" THEN FlatSeeds ELSE IF Part = "group" THEN GroupSeeds ELSE IF Part = "gmap" THEN GmapSeeds ELSE NestSeeds
+CasesFor(s) == IF Part = "flat" THEN FlatCases(s) ELSE IF Part = "group" THEN GroupCases(s)
+               ELSE IF Part = "gmap" THEN GmapCases(s) ELSE NestCases(s)
 \* derived data of a case: aux = credit tensor / table in units, and the layout
 CaseDen(x) == IF x.kind = "flat" THEN x.den ELSE IF x.kind = "group" THEN 2 ELSE 1
-CaseGrouping(x) == IF x.kind = "group" THEN GroupingOf(x) ELSE x.g
+CaseGrouping(x) == IF x.kind = "group" THEN GroupingOf(x) ELSE IF x.kind = "gmap" THEN x.pre \o x.rest ELSE x.g
 CaseTable(x) == IF x.kind = "flat" THEN UnitTensor(x)
                 ELSE IF x.kind = "group" THEN Pattern(GroupingOf(x), x.pat)
                 ELSE x.first \o x.rest
 CaseTree(x) == IF x.kind = "flat" THEN FlatTree(RatTensor(UnitTensor(x), x.den), CfgOf(x))
                ELSE TreeOf(CaseGrouping(x), x.outOrd, x.inOrd, x.pcOut, IF x.kind = "group" THEN TRUE ELSE x.pcIn, CaseTable(x), CaseDen(x))
-CaseOut(x) == IF x.kind = "flat" THEN CompactFlat(Allowed(RatTensor(UnitTensor(x), x.den), CfgOf(x)), x.den)
+CaseOut(x) == IF x.kind = "gmap" THEN GroupMap(CaseGrouping(x))
+              ELSE IF x.kind = "flat" THEN CompactFlat(Allowed(RatTensor(UnitTensor(x), x.den), CfgOf(x)), x.den)
               ELSE CompactTree(Results(CaseTree(x)), GroupMap(CaseGrouping(x)), CaseDen(x))
 
 Init == c \in Seeds /\ out = {} /\ aux = <<>>
 Next == /\ c.kind = "seed"
         /\ c' \in CasesFor(c)
         /\ out' = CaseOut(c')
-        /\ aux' = IF c'.kind = "flat" THEN CaseTable(c') ELSE [g |-> CaseGrouping(c'), C |-> CaseTable(c')]
+        /\ aux' = IF c'.kind = "flat" THEN CaseTable(c')
+                  ELSE IF c'.kind = "gmap" THEN [g |-> CaseGrouping(c')]
+                  ELSE [g |-> CaseGrouping(c'), C |-> CaseTable(c')]
 
 (* ------------------------------------------------------------------ laws about the specification itself *)
-IsFlat == IsCase /\ c.kind = "flat"
+IsFlatCore == IsCase /\ c.kind = "flat"
+IsFlat == IsFlatCore /\ ~c.lite
 MR == RatTensor(UnitTensor(c), c.den)
 Cfg == CfgOf(c)
 \* two generators of the symmetric group (transposition, n-cycle): on a case space closed under permutations a law
 \* that holds for the generators in every case holds for every permutation
 TestPerms(n) == {[i \in 1..n |-> IF i = 1 THEN 2 ELSE IF i = 2 THEN 1 ELSE i], [i \in 1..n |-> (i % n) + 1]}
 
-LawNonEmpty == IsCase => out # {}
+IsLayout == IsCase /\ c.kind \in {"group", "nested"}
+LawNonEmpty == IsCase /\ c.kind # "gmap" => out # {}
 \* every allowed vector: one entry per input, all from one answer list, every answer used exactly once, ordered => in place
-LawShape == IsFlat => \A r \in Allowed(MR, Cfg) :
+LawShape == IsFlatCore => \A r \in Allowed(MR, Cfg) :
                /\ Len(r) = c.n
                /\ \A i \in 1..c.n : r[i].a = r[1].a /\ r[i].a \in 1..c.A /\ r[i].j \in 1..c.n
                /\ \A i, k \in 1..c.n : r[i].j = r[k].j => i = k
                /\ c.ordered => \A i \in 1..c.n : r[i].j = i
                /\ \A i \in 1..c.n : r[i].ok = OkOf(r[i].g)
 \* the total credit is the optimum found by an independent formulation, and no assignment to any list does better
-LawOptimal == IsFlat /\ ~c.ordered => LET M == MR  best == RMaxSet({BestRec(M[a], 1, 1..c.n) : a \in 1..c.A})
+LawOptimal == IsFlatCore /\ ~c.ordered => LET M == MR  best == RMaxSet({BestRec(M[a], 1, 1..c.n) : a \in 1..c.A})
                                       IN \A r \in Allowed(M, [Cfg EXCEPT !.pc = TRUE]) :
                                            /\ VectorTotal(r) = best
                                            /\ \A a \in 1..c.A : \A s \in Bijections(c.n) : Leq(AssignTotal(M[a], s), best)
-LawOrderedTotal == IsFlat /\ c.ordered => LET M == MR IN \A r \in Allowed(M, [Cfg EXCEPT !.pc = TRUE]) :
+LawOrderedTotal == IsFlatCore /\ c.ordered => LET M == MR IN \A r \in Allowed(M, [Cfg EXCEPT !.pc = TRUE]) :
                \A a \in 1..c.A : Leq(AssignTotal(M[a], Identity(c.n)), VectorTotal(r))
 \* permuting the input boxes permutes the allowed vectors (results follow their boxes)
 LawEquivariant == IsFlat /\ ~c.ordered => LET M == MR  A0 == Allowed(M, Cfg)
@@ -174,7 +194,7 @@ LawTreeAgrees == IsFlat => LET M == MR  t == FlatTree(M, Cfg)  A0 == Allowed(M, 
 PathsOf(r) == [p \in 1..Len(r) |-> r[p].path]
 GradesOf(r) == [p \in 1..Len(r) |-> r[p].g]
 FlatPathSpace == [1..c.n -> {<<a, j, 1>> : a \in 1..c.A, j \in 1..c.n}]
-LawEvalSound == IsCase => LET t == CaseTree(c) IN \A r \in Results(t) :
+LawEvalSound == IsCase /\ c.kind # "gmap" /\ (c.kind = "flat" => ~c.lite) => LET t == CaseTree(c) IN \A r \in Results(t) :
                LET e == Eval(t, PathsOf(r)) IN e.why = "" /\ e.res = GradesOf(r)
 LawEvalComplete == IsFlat /\ c.n <= 3 /\ (c.n <= 2 \/ c.den = 1) =>
                LET t == CaseTree(c)  ps == {PathsOf(r) : r \in Results(t)}
@@ -193,10 +213,10 @@ LawRoundTrip == IsGrouped => LET gm == GroupMap(CaseGrouping(c))
                                  flat == [p \in 1..SumLens(gm) |-> <<"item", p>>]
                                  nest == [k \in 1..Len(gm) |-> [i \in 1..Len(gm[k]) |-> <<k, i>>]]
                              IN Ungroupify(gm, Groupify(gm, flat)) = flat /\ Groupify(gm, Ungroupify(gm, nest)) = nest
-LawValidTree == IsCase => ValidTree(CaseTree(c)) /\ CertsOK(CaseTree(c))
+LawValidTree == IsCase /\ c.kind # "gmap" /\ (c.kind = "flat" => ~c.lite) => ValidTree(CaseTree(c)) /\ CertsOK(CaseTree(c))
 \* every allowed vector of a layout has the same total, which is NPos * Value
-LawValueIsAverage == IsGrouped => LET t == CaseTree(c) IN \A r \in Results(t) :
+LawValueIsAverage == IsLayout => LET t == CaseTree(c) IN \A r \in Results(t) :
                SumF(GradesOf(r), Len(r)) = Mul(Value(t), FromInt(NPos(t)))
 \* outer partial_credit = False on a layout: all or nothing
-LawGroupedAllOrNothing == IsGrouped /\ ~c.pcOut => \A r \in Results(CaseTree(c)) : PerfectG(r) \/ \A p \in 1..Len(r) : r[p].g = Zero
+LawGroupedAllOrNothing == IsLayout /\ ~c.pcOut => \A r \in Results(CaseTree(c)) : PerfectG(r) \/ \A p \in 1..Len(r) : r[p].g = Zero
 =============================================================================
